@@ -43,8 +43,15 @@ WriteOk(p, r) == Len(p.pl) <= MaxPayload /\ (IsRtx(r) => ~PadOverflow(p))
 Key(s) == <<s, Fn(cur, s, 0)>>
 Bound(s) == Fn(cur, s, 0) # 0
 
+\* Close is permanent: a closed responder starts no resend goroutine (nothing would wait for it).  The flag lives under the
+\* reserved key -1 of gens.
+Closed == Fn(gens, -1, 0) = 1
 Accept(e) ==
-  CASE e.a \in {"bind", "unbind", "close", "nack", "clear"} -> TRUE
+  CASE e.a \in {"bind", "unbind", "close", "clear"} -> TRUE
+    [] e.a = "nack" -> e.started = ~Closed
+    \* C11 for this component: Close returns only after every resend goroutine has finished (its "close" event is logged
+    \* when it has cleared the buffers and starts waiting)
+    [] e.a = "closeret" -> e.ok /\ \A j \in DOMAIN jobs : jobs[j].pc = "done"
     [] e.a = "write" ->
          IF Bound(e.s) /\ e.pkt.ssrc = e.s
          THEN e.ok = WriteOk(e.pkt, rtx[Key(e.s)]) /\ (e.ok => e.fwd)
@@ -83,7 +90,8 @@ Step(e) ==
     [] e.a = "close" ->
          /\ cur' = [s \in DOMAIN cur |-> 0]
          /\ bufs' = [k \in DOMAIN bufs |-> IF Fn(cur, k[1], 0) = k[2] THEN EmptyBuf ELSE bufs[k]]
-         /\ UNCHANGED <<gens, rtx, content, jobs>>
+         /\ gens' = Put(gens, -1, 1)
+         /\ UNCHANGED <<rtx, content, jobs>>
     [] e.a = "clear" -> bufs' = Put(bufs, Key(0), EmptyBuf) /\ UNCHANGED <<gens, cur, rtx, content, jobs>>
     [] e.a \in {"write", "add"} ->
          LET s == IF e.a = "add" THEN 0 ELSE e.s IN
@@ -92,7 +100,9 @@ Step(e) ==
                     THEN Put(bufs, Key(s), AddStep(size, bufs[Key(s)], e.w, e.id)) ELSE bufs
          /\ UNCHANGED <<gens, cur, rtx, jobs>>
     [] e.a = "nack" ->
-         /\ jobs' = Put(jobs, e.j, [s |-> e.s, todo |-> e.nums, stream |-> <<0, 0>>, pc |-> "start", allowed |-> {}])
+         /\ jobs' = IF e.started
+                    THEN Put(jobs, e.j, [s |-> e.s, todo |-> e.nums, stream |-> <<0, 0>>, pc |-> "start", allowed |-> {}])
+                    ELSE jobs
          /\ UNCHANGED <<gens, cur, bufs, rtx, content>>
     [] e.a = "jobstart" ->
          /\ jobs' = [jobs EXCEPT ![e.j] = IF e.found THEN Advance([@ EXCEPT !.stream = Key(jobs[e.j].s), !.pc = "run"])
